@@ -217,6 +217,51 @@ def exec (fixed : Bool) (kinds : List Kind) (ops : List Op) (mode : StopMode := 
 def boot (fixed : Bool) (kinds : List Kind) (mode : StopMode := .later) : St × List Evt :=
   exec fixed kinds [] mode
 
+/-! ### the node's service list: `App.FilterSelfServices` (node/app/app.go) and `NodeCtrl.makeServices`
+
+`makeServices` enters every name `FilterSelfServices` hands it into `NodeCtrl.services`, without
+looking at the `*config.ServiceInfo`; `FilterSelfServices` walks the node's `Services:` list in
+order and skips the names that have no entry in the `services:` table.  So what the controller
+hosts - probes, tells, waits for - is exactly the configured names, whatever their attributes
+say (a frontend/gate is hosted like a backend). -/
+
+/-- node/config.ServiceInfo: the service type (an index), the `Frontend` flag, whether a tcp /
+a ws client address is configured -/
+structure SvcCfg where
+  typ : Nat := 0
+  frontend : Bool := false
+  clientAddr : Bool := false
+  wsAddr : Bool := false
+  deriving DecidableEq, Repr
+
+/-- one name of the node's `Services:` list -/
+inductive Entry
+  | unconfigured                      -- no entry in the services table: `FilterSelfServices` skips it
+  | hosted (cfg : SvcCfg) (k : Kind)  -- configured with `cfg`; the service behind it behaves like `k`
+  deriving DecidableEq, Repr
+
+def Entry.isHosted : Entry → Bool
+  | .hosted _ _ => true | .unconfigured => false
+
+/-- rewrite the attributes of every configured entry -/
+def Entry.mapCfg (f : SvcCfg → SvcCfg) : Entry → Entry
+  | .hosted c k => .hosted (f c) k | .unconfigured => .unconfigured
+
+/-- `FilterSelfServices` with the filter of `makeServices`: the tracked services, in list order
+(service `s<i>` of the controller is the `i`-th configured name) -/
+def hostedOf : List Entry → List Kind
+  | [] => []
+  | .unconfigured :: r => hostedOf r
+  | .hosted _ k :: r => k :: hostedOf r
+
+/-- the controller's index of the `j`-th name of the list: the number of configured names before it -/
+def hostIdx (lst : List Entry) (j : Nat) : Nat := (lst.take j).countP Entry.isHosted
+
+/-- a whole case from the node's configuration: `Start` (makeServices over the real service
+list), the probe, then the history -/
+def execCfg (fixed : Bool) (lst : List Entry) (ops : List Op) (mode : StopMode := .later) : St × List Evt :=
+  exec fixed (hostedOf lst) ops mode
+
 /-! ### observations used by the theorems -/
 
 def pubRanks (es : List Evt) : List Nat :=
